@@ -10,8 +10,8 @@ d = os.path.join(V, 'seeded', name)
 os.makedirs(d, exist_ok=True)
 sd = os.path.join(wt, '_seed')
 conf = open(os.path.join(sd, 'confirm%s.txt' % i)).read()
-ok = ('== suite with patch' in conf and ' failed; ' in conf and 'FAILED' in conf.split('== demo with patch')[1].split('== demo without patch')[0]
-      and 'FAILED' not in conf.split('== demo without patch')[1] and all(' 0 failed' in l for l in conf.split('== demo with patch')[0].splitlines() if l.startswith('test result')))
+ok = ('== suite with patch' in conf and ' failed; ' in conf and ('FAILED' in conf.split('== demo with patch')[1].split('== demo without patch')[0] or 'error: test failed' in conf.split('== demo with patch')[1].split('== demo without patch')[0])
+      and 'FAILED' not in conf.split('== demo without patch')[1] and 'error: test failed' not in conf.split('== demo without patch')[1] and all(' 0 failed' in l for l in conf.split('== demo with patch')[0].splitlines() if l.startswith('test result')))
 shutil.copy(os.path.join(sd, 'patch%s.diff' % i), os.path.join(d, 'patch.diff'))
 shutil.copy(os.path.join(sd, 'demo%s.rs' % i), os.path.join(d, 'demo.rs'))
 if os.path.exists(os.path.join(sd, 'notes%s.md' % i)):
